@@ -34,6 +34,17 @@ type cStmt struct {
 	a, b       *cStmt // seq parts / ite branches / loop body, post
 	declareVar bool   // loop whose init declares a fresh variable with := (rendering only)
 	init       *cStmt // rendering only: `for init; c; post`
+	clauses    []cClause
+	tag        *cExpr // switch with a tag: clause i tests tag == vals[i]
+}
+
+// cClause is one clause of a switch; the default clause (always last) has isDefault set.
+type cClause struct {
+	c         *cBool // tagless condition
+	val       int64  // tag switch: case value
+	body      *cStmt
+	fall      bool
+	isDefault bool
 }
 
 var binGo = map[string]string{"add": "+", "sub": "-", "mul": "*", "and": "&", "or": "|", "xor": "^", "quo": "/", "rem": "%"}
@@ -117,6 +128,22 @@ func (s *cStmt) sexp() string {
 	case "ite":
 		return "(ite " + s.c.sexp() + " " + s.a.sexp() + " " + s.b.sexp() + ")"
 	}
+	if s.k == "switch" {
+		parts := []string{"switch"}
+		for _, cl := range s.clauses {
+			var c string
+			switch {
+			case cl.isDefault:
+				c = "(cmp eq (lit 0) (lit 0))"
+			case s.tag != nil:
+				c = "(cmp eq " + s.tag.sexp() + fmt.Sprintf(" (lit %d))", cl.val)
+			default:
+				c = cl.c.sexp()
+			}
+			parts = append(parts, "(c "+c+" "+cl.body.sexp()+" "+common.B(cl.fall)+")")
+		}
+		return "(" + strings.Join(parts, " ") + ")"
+	}
 	l := "(loop " + s.c.sexp() + " " + s.a.sexp() + " " + s.b.sexp() + ")"
 	if s.init != nil {
 		return "(seq " + s.init.sexp() + " " + l + ")"
@@ -147,6 +174,31 @@ func (s *cStmt) render(b *strings.Builder, ind int) {
 			s.b.render(b, ind+1)
 		}
 		b.WriteString(tab + "}\n")
+	case "switch":
+		if s.tag != nil {
+			fmt.Fprintf(b, "%sswitch %s {\n", tab, s.tag.goSrc())
+		} else {
+			b.WriteString(tab + "switch {\n")
+		}
+		for _, cl := range s.clauses {
+			switch {
+			case cl.isDefault:
+				b.WriteString(tab + "default:\n")
+			case s.tag != nil:
+				if cl.val < 0 {
+					fmt.Fprintf(b, "%scase %d:\n", tab, cl.val)
+				} else {
+					fmt.Fprintf(b, "%scase %d:\n", tab, cl.val)
+				}
+			default:
+				fmt.Fprintf(b, "%scase %s:\n", tab, cl.c.goSrc())
+			}
+			cl.body.render(b, ind+1)
+			if cl.fall {
+				b.WriteString(tab + "\tfallthrough\n")
+			}
+		}
+		b.WriteString(tab + "}\n")
 	case "loop":
 		post := ""
 		if s.b.k == "assign" {
@@ -169,14 +221,15 @@ func (s *cStmt) render(b *strings.Builder, ind int) {
 }
 
 type coreGen struct {
-	r       *rand.Rand
-	nvars   int
-	ro      map[int]bool // variables that must not be assigned (loop counters)
-	inLoop  int
-	budget  int
-	fresh   int
-	declare map[int]bool // variables declared by a `for v := …` (not by the leading var statement)
-	dead    map[int]bool // `:=` loop variables whose loop has ended (out of scope)
+	r        *rand.Rand
+	nvars    int
+	ro       map[int]bool // variables that must not be assigned (loop counters)
+	inLoop   int
+	budget   int
+	fresh    int
+	declare  map[int]bool // variables declared by a `for v := …` (not by the leading var statement)
+	dead     map[int]bool // `:=` loop variables whose loop has ended (out of scope)
+	inSwitch int
 }
 
 func (g *coreGen) lit() *cExpr { return &cExpr{k: "lit", n: int64(g.r.Intn(25) - 6)} }
@@ -320,6 +373,43 @@ func (g *coreGen) stmt(depth int) *cStmt {
 			g.dead[w] = true
 		}
 		return l
+	case k == 11:
+		// switch: tag or tagless, default (if any) last, clause bodies never empty, fallthrough never
+		// from the last clause; `break` inside a clause leaves the switch
+		sw := &cStmt{k: "switch"}
+		if g.r.Intn(2) == 0 {
+			sw.tag = &cExpr{k: "bin", op: "rem", a: g.v(), b: &cExpr{k: "lit", n: 3}}
+		}
+		n := 1 + g.r.Intn(3)
+		used := map[int64]bool{}
+		g.inSwitch++
+		for i := 0; i < n; i++ {
+			cl := cClause{body: g.block(depth + 1)}
+			if sw.tag != nil {
+				v := int64(g.r.Intn(5) - 2)
+				for used[v] {
+					v++
+				}
+				used[v] = true
+				cl.val = v
+			} else {
+				cl.c = g.cond(1)
+			}
+			if g.r.Intn(6) == 0 {
+				cl.body = &cStmt{k: "seq", a: &cStmt{k: "ite", c: g.cond(1), a: &cStmt{k: "brk"}, b: &cStmt{k: "skip"}}, b: cl.body}
+			}
+			sw.clauses = append(sw.clauses, cl)
+		}
+		if g.r.Intn(2) == 0 {
+			sw.clauses = append(sw.clauses, cClause{isDefault: true, body: g.block(depth + 1)})
+		}
+		for i := 0; i+1 < len(sw.clauses); i++ {
+			if g.r.Intn(4) == 0 {
+				sw.clauses[i].fall = true
+			}
+		}
+		g.inSwitch--
+		return sw
 	case k == 10 && g.inLoop > 0:
 		kw := []string{"brk", "cont"}[g.r.Intn(2)]
 		return &cStmt{k: "ite", c: g.cond(1), a: &cStmt{k: kw}, b: &cStmt{k: "skip"}}
@@ -409,6 +499,12 @@ func coreStream(run *common.Run) {
 			run.Hit("core:end:" + gs[i].End)
 			if strings.Contains(terms[i], " brk") || strings.Contains(terms[i], " cont") {
 				run.Hit("core:break-or-continue")
+			}
+			if strings.Contains(terms[i], "(switch ") {
+				run.Hit("core:switch")
+			}
+			if strings.Contains(terms[i], ") 1) (c ") {
+				run.Hit("core:fallthrough")
 			}
 			if strings.Contains(terms[i], "(land ") || strings.Contains(terms[i], "(lor ") {
 				run.Hit("core:short-circuit")
